@@ -1594,6 +1594,18 @@ theorem symtab_by_name_history_independent (S : ElfStructs) (env : Env) (data : 
   unfold Model.SigCache.stateless symNameScan getSymbolByName
   cases iterSymbols S env data h strOff <;> rfl
 
+/-- composed with `by_name_exact`: on every laid-out symbol table, after ANY history of `get_symbol_by_name` calls on
+    one section object, each answer is `None` iff no symbol bears the name, else exactly the symbols bearing it in index
+    order -/
+theorem by_name_exact_any_history {le : Bool} {cls : Nat} {data : Bytes} {h : SecHdr} {strOff : Nat} {es : List SymE}
+    {names : List Bytes} (env : Env) (m : String) (sol core : Bool) (L : SymtabLayout le cls data h strOff es names)
+    (qs : List Bytes) :
+    (symByNameHist (Spec.elfStructs ⟨le, cls, m, sol, core⟩) env data h strOff qs).1
+      = qs.map (fun name => .ok (if byName names name = [] then none
+                                 else some ((byName names name).map (symObs env.enumDecode cls es names)))) := by
+  rw [symtab_by_name_history_independent]
+  exact List.map_congr_left (fun q _ => by_name_exact env m sol core L q)
+
 /-- a walk that raised publishes no map (the defect class of the half-built `defaultdict`) -/
 theorem symtab_failed_walk_publishes_nothing (S : ElfStructs) (env : Env) (data : Bytes) (h : SecHdr) (strOff : Nat)
     (e : Err) (he : iterSymbols S env data h strOff = .error e) (qs : List Bytes) :
